@@ -419,6 +419,7 @@ type FuncContract struct {
 	MayPanic   bool // callers must not rely on absence of panics
 	DeadReturns map[int]bool // return statements known to be unreachable under the assumed contracts (defensive code): no cover obligation
 	SplitReturns bool // the representation invariant is checked at each return statement separately
+	StrictPanics bool // a recovering defer gives no credit: every possible panic is an obligation (the recover only logs)
 	NoLocks    bool // the function is entered with no mutex held (obligation at call sites)
 	NoNilCheck bool // nil dereferences are not checked (pointers into node-internal structures)
 	NoPanicCheck bool // do not emit nopanic obligations (functional contract only)
@@ -483,7 +484,7 @@ type ContractFile struct {
 
 var clauseKW = map[string]bool{"mapval": true, "global": true, "func": true, "spec": true, "uf": true, "lemma": true, "axiom": true,
 	"props": true, "requires": true, "ensures": true, "panics": true, "modifies": true, "loop": true,
-	"inline": true, "assumed": true, "pure": true, "nooverflow": true, "maypanic": true, "nopaniccheck": true, "nonilcheck": true, "nolocks": true, "splitreturns": true, "deadreturn": true,
+	"inline": true, "assumed": true, "pure": true, "nooverflow": true, "maypanic": true, "nopaniccheck": true, "nonilcheck": true, "nolocks": true, "strictpanics": true, "splitreturns": true, "deadreturn": true,
 	"split": true, "excuse": true, "makebound": true, "recspec": true, "induct": true, "datainv": true}
 
 var labelRe = regexp.MustCompile(`^([A-Za-z_][A-Za-z0-9_]*):\s+(.*)$`)
@@ -769,6 +770,8 @@ func parseContractFile(path, pkg string) (*ContractFile, error) {
 				cur.NoNilCheck = true
 			case "nolocks":
 				cur.NoLocks = true
+			case "strictpanics":
+				cur.StrictPanics = true
 			case "splitreturns":
 				cur.SplitReturns = true
 			case "deadreturn":
